@@ -170,6 +170,10 @@ class SymInt:
             return a / b
         return self._bin(o, f, True)
 
+    def __truediv__(self, o):
+        raise Concretized("true division of a symbolic integer (floating point arithmetic) is outside the encoding")
+    __rtruediv__ = __truediv__
+
     def __mod__(self, o):
         def f(a, b):
             self._posdiv(b)
@@ -424,7 +428,7 @@ class RangeStub(metaclass=_RangeMeta):
 
 
 # ---- symbolic name parts (C18) --------------------------------------------------------------------
-ALPHA = ["a", "b", "ab", "0", 0, 1]
+ALPHA = ["a", "b", "ab", "0", 0, 300]      # 300: an integer CPython does not cache (equal but distinct objects)
 _STRS = sorted(set(str(x) for x in ALPHA))
 _RANK = [_STRS.index(str(x)) for x in ALPHA]
 _ISSTR = [int(isinstance(x, str)) for x in ALPHA]
@@ -542,7 +546,12 @@ class Concrete:
         return v
 
     def part(self, name):
-        return ALPHA[self.values.get(name, 0)]
+        v = ALPHA[self.values.get(name, 0)]
+        if type(v) is int and v > 256:
+            v = int(str(v))           # a fresh object every time, as a value computed at run time would be
+        elif type(v) is str:
+            v = "".join(list(v))      # likewise a fresh (not interned by identity) string object
+        return v
 
     def bv(self, name, lo=None, hi=None):
         return self.int(name, lo, hi)
